@@ -28,7 +28,7 @@ func (c12) Rule() string {
 	return "a corpus of encode inputs (values of every zoo type) and decode inputs (valid messages, truncated prefixes, byte flips, short random strings) is first run sequentially to obtain the expected result class of each entry (canonical hash of the value / bytes, masked error, panic class); then N in {2,4,16,64} goroutines with GOMAXPROCS in {2,4,16}, each with its OWN instance (NewSerializer, NewEncoder+NewDecoder, or taken from the three pools) over the SAME complete type/name maps and the SAME read-only input objects, replay random entries with random Gosched between calls and compare. The race portion runs on the -race worker (GORACE halt_on_error=0, reports counted from the log, de-duplicated by stack). Non-trivial = concurrent run with >= 2 goroutines; distinct by (N, GOMAXPROCS, instance kind, seed)."
 }
 func (c12) NeedsRace(string) bool { return true }
-func (c12) ProcOpts() Proc        { return Proc{RlimitAS: 6 << 30, StallSec: 300} }
+func (c12) ProcOpts() Proc        { return Proc{RlimitAS: 6 << 30, StallSec: 120} }
 func (c12) Assumptions() []string {
 	return []string{"the static clause of the quantifier (no write to package-level state on ANY reachable path) is outside runtime monitoring: only the driven paths are decided; statement coverage of the concurrent workload is what the evidence offers instead"}
 }
